@@ -343,6 +343,12 @@ func (x *ctx) frameObligations(st *state, con *Contract, penv envFn, ret val) {
 			x.declare(init, srt)
 		}
 		allowed := init
+		if hi := x.hinfo[k]; !hi.indexed && ((strings.HasPrefix(k, "G:") && len(hi.ksorts) == 1 && hi.ksorts[0] == sRef) || !strings.HasPrefix(k, "G:")) {
+			// objects allocated by this function are not part of the caller's frame
+			for _, a := range x.allocated {
+				allowed = fmt.Sprintf("(store %s %s (select %s %s))", allowed, a.s, cur, a.s)
+			}
+		}
 		for _, l := range locs[k] {
 			allowed = fmt.Sprintf("(store %s %s (select %s %s))", allowed, l, cur, l)
 		}
@@ -386,7 +392,7 @@ func (x *ctx) fieldInvObligations(st *state, con *Contract, penv envFn) {
 func frameExempt(k string) bool {
 	switch {
 	case k == "Len", strings.HasPrefix(k, "E:"), strings.HasPrefix(k, "G:mapP"), strings.HasPrefix(k, "G:mapV"), k == "G:mapN",
-		strings.HasPrefix(k, "G:lp"), k == "G:chanSent", k == "G:wgDone", strings.HasPrefix(k, "deref."), strings.HasPrefix(k, "G:arg_"), strings.HasPrefix(k, "G:ret_"), strings.HasPrefix(k, "G:last_"):
+		strings.HasPrefix(k, "G:lp"), strings.HasPrefix(k, "G:clp"), k == "G:chanSent", k == "G:wgDone", strings.HasPrefix(k, "deref."), strings.HasPrefix(k, "G:arg_"), strings.HasPrefix(k, "G:ret_"), strings.HasPrefix(k, "G:last_"):
 		return true
 	}
 	return false
